@@ -203,6 +203,21 @@ CLAIMED = {
         "cross-file copies are tied by the predicates only; data frames are copied by the same H5Group.copy but are not part "
         "of the store model (C16 covers their content).",
         "DESIGN.md section 5 C20", TECH),
+    "C14": (
+        "Coq theorems over the validator model (check_file on an abstract description of arrays with their descriptors, tags, "
+        "multi-tags and other entities; unit classification from the regenerated unit tables): (1) on every consistent file - "
+        "one descriptor per data dimension, matching tick/label counts, strictly increasing ticks, positive intervals, atomic SI "
+        "dimension units, tag position/extent/unit lengths matching the references with convertible units, name/type/date "
+        "present - every object's report is empty; (2) for every catalogue error, an exact characterisation of when it is in an "
+        "object's report: entity errors, each of the seven descriptor errors of dimension idx (from the idx-th descriptor against "
+        "the idx-th extent), missing/surplus descriptors, all eight tag errors and all eight multi-tag errors. Tie: files built "
+        "from recipes through the public API (+ h5py for what the API refuses to create), with 0/1/2 injected catalogue "
+        "inconsistencies at random eligible objects, closed, reopened read-only and validated; per-object error sets compared "
+        "with the model exactly and with what was injected (untouched objects silent, touched objects reported, no crash).",
+        "Trusted: Coq kernel; the recipe builder; 'no ID set' is not modelled (an entity without id cannot be opened through the "
+        "API at all); position/extent/unit length checks are scoped to tags with references, as in the property text; feature "
+        "checks and warnings are outside the property's catalogue.",
+        "DESIGN.md section 5 C14", TECH),
 }
 
 PENDING_REASON = ("check not built yet in this revision (work in progress: the property is meant to be decided by Coq "
